@@ -1328,6 +1328,23 @@ fn run_inner(sc: &J) -> Result<Option<String>, String> {
                                 if !rd.is_empty() { return Ok(Some(format!("{what}: block {bi} has {} byte(s) after its {count} objects", rd.len()))); }
                             }
                             if got != vals { return Ok(Some(format!("{what}: appended {} values, an independent reader finds {} (first difference at {:?})", vals.len(), got.len(), got.iter().zip(vals.iter()).position(|(a, b)| a != b)))); }
+                            // C03 "reopening the output later to append with the original sync marker": the continued file is ONE container
+                            // (one header) holding the old values followed by the new ones
+                            if flush_every == 0 && bs == 16000 {
+                                let marker = apache_avro::read_marker(&file);
+                                if marker != pc.marker { return Ok(Some(format!("{what}: read_marker gives {:02x?}, the header's marker is {:02x?}", marker, pc.marker))); }
+                                let mut w2 = apache_avro::Writer::append_to_with_codec(&schema, file.clone(), parse_codec(codec_name), marker).map_err(|e| e.to_string())?;
+                                for v in vals.iter().take(3) { w2.append_value_ref(v).map_err(|e| e.to_string())?; }
+                                let file2 = w2.into_inner().map_err(|e| e.to_string())?;
+                                if file2.len() <= file.len() || file2[..file.len()] != file[..] { return Ok(Some(format!("{what}: appending to the reopened output changed or dropped the bytes already there"))); }
+                                let pc2 = match crate::refimpl::parse_container(&file2) { Ok(p) => p, Err(e) => return Ok(Some(format!("{what}: after append_to the file is not a spec-conforming container: {e}"))) };
+                                let total: i64 = pc2.blocks.iter().map(|(c, _)| *c).sum();
+                                if total as usize != vals.len() + vals.len().min(3) { return Ok(Some(format!("{what}: after append_to the blocks hold {total} objects, {} were appended in all", vals.len() + vals.len().min(3)))); }
+                                match apache_avro::Reader::new(&file2[..]).map_err(|e| e.to_string()).and_then(|rd| rd.collect::<Result<Vec<Value>, _>>().map_err(|e| e.to_string())) {
+                                    Ok(vs) if vs.len() == total as usize && vs[..vals.len()] == vals[..] && vs[vals.len()..] == vals[..vals.len().min(3)] => {}
+                                    other => return Ok(Some(format!("{what}: after append_to the library reads {:?}", other.map(|v| v.len())))),
+                                }
+                            }
                         }
                     }
                 }
